@@ -7,9 +7,10 @@ import subprocess
 import sys
 
 pid = sys.argv[1]
+BENIGN = len(sys.argv) > 2 and sys.argv[2] == "benign"
 ROUND2 = len(sys.argv) > 2 and sys.argv[2] == "round2"
 ROUND3 = len(sys.argv) > 2 and sys.argv[2] == "round3"
-suffix = "_r2" if ROUND2 else ("_r3" if ROUND3 else "")
+suffix = "_r2" if ROUND2 else ("_r3" if ROUND3 else ("_bn" if BENIGN else ""))
 root = os.path.dirname(os.path.dirname(os.path.abspath(__file__)))
 prop = next(json.loads(l) for l in open(os.path.join(root, "properties.jsonl")) if json.loads(l)["id"] == pid)
 wt = f"/tmp/mut_{pid}{suffix}"
@@ -19,6 +20,31 @@ files = ", ".join(prop["anchors"]["files"])
 extra = ("""
 This is a SECOND round: a first round already tried the obvious single-call defects. Prefer defects that only show (a) when ONE object (manager, wrapper, component, simulation, trainer) is used for a multi-step history — several episodes, options changed through public setters between uses, a second call after a first one, (b) through aliasing or shared mutable state between two objects built in the same process, (c) for inputs that are equal as values but differ in representation or ordering (dict insertion order, id order, numpy memory layout/dtype, tuple vs list, int vs numpy int), or (d) only for a particular combination of three or more options/agents. A check that builds a fresh object per case and feeds canonical inputs must NOT be able to see your change.""" if ROUND2 else ("""
 This is a THIRD round: earlier rounds tried single-call defects and defects that need object histories, aliasing or unusual representations. Assume the checker generates many SMALL cases (grids up to about 6x6, up to about 7 agents, ranges up to about 6, histories up to about 40 operations, small integers) exhaustively and at random, also with object reuse. Prefer defects that only show at SCALE or at EXTREMES that such generators do not reach: ten or more rows/columns, eleven or more agents (ids like agent10 sort before agent2), view/move/attack ranges of 8 and more or larger than the grid, more than 9 encodings, two-digit counts, histories of 50+ steps or 3+ episodes, values at the ends of integer or float ranges, accumulation effects (rounding of many small rewards, counters), performance shortcuts that change results only above a threshold. The defect must still be realistic and must still leave the test suite unchanged.""" if ROUND3 else ""))
+if BENIGN:
+    print(f"""You are helping to evaluate a verification effort: its checks must stay QUIET on harmless changes. You get ONE semantic property of the Python package LLNL/Abmarl and your own scratch git worktree of its repository at {wt} (a detached checkout; work ONLY there; do NOT read or use anything under /verif or /repo).
+
+The property:
+-----
+{pid} — {prop['title']}
+
+{prop['statement']}
+
+Quantified over: {prop['quantifier']['text']}
+
+Code it is anchored in: {files}
+-----
+
+Your task: produce THREE independent HARMLESS changes to the code the property is anchored in — the kind of commit a maintainer makes all the time — each of which
+  (1) keeps the property TRUE for every input, schedule and history, and keeps the behaviour observable through the PUBLIC API exactly the same (same return values, same exceptions raised in the same situations, same consumption of numpy's global random stream in the same order, same contents of public attributes),
+  (2) still leaves the test suite exactly as it was: `cd {wt} && /venv/bin/python -m pytest -q -p no:cacheprovider --timeout=900 --continue-on-collection-errors 2>&1 | tail -5` gives `1 failed, 155 passed, 12 errors` before and after,
+  (3) is NOT trivial: it must really restructure code on the paths the property exercises. Use three different kinds, one each:
+      m1: an internal refactoring — loops rewritten as comprehensions or the other way round, a helper function or method extracted or inlined, early returns, conditions reordered where order does not matter, local variables renamed, a private helper attribute or private method (leading underscore, not part of the documented interface) renamed or replaced by an equivalent structure;
+      m2: an equivalent algorithm or data structure — a different but equivalent formula, a set instead of a list where order is not observable, a cached or precomputed value that is provably always fresh, numpy vectorisation of a Python loop or the reverse, integer arithmetic instead of equivalent comparisons;
+      m3: a change of things the property does not speak about — wording of error and assertion messages, docstrings and comments, added type or sanity checks that can never fire on legal use, logging, rendering code, default colours / render shapes, an added keyword argument with a default that preserves behaviour, an added public helper method.
+For each change i in {{1,2,3}} deliver, under {wt}/_mutation/m<i>/ : patch.diff (`git diff` of ONLY that change against HEAD; make change 1, save its diff, `git checkout -- .`, then the next), and README.md (what was changed and the argument why behaviour is unchanged; the test-suite tail with the change). Also write ONE program {wt}/_mutation/demo.py exercising the changed code paths through the public API with fixed seeds (np.random.seed) and printing a digest (e.g. a hash of all observations / states / outputs over a few hundred operations); run it on the clean checkout and with each change applied and confirm in each README that the digest is IDENTICAL (if `abmarl.sim.wrappers` is needed: gymnasium 1.3 lacks `gymnasium.spaces.box.get_inf`, define it before importing: `import gymnasium.spaces.box as b; import numpy as np; b.get_inf = getattr(b,'get_inf', lambda dtype, sign: (np.inf if sign=='+' else -np.inf) if np.dtype(dtype).kind=='f' else (np.iinfo(dtype).max-2 if sign=='+' else np.iinfo(dtype).min+2))`; run as `PYTHONPATH=<checkout> /venv/bin/python demo.py`).
+Leave the worktree clean (`git checkout -- .`; `_mutation/` stays, untracked). Keep scratch files inside {wt}/_mutation/.
+In your final message give, per change, a two-line summary (site, what changed).""")
+    sys.exit(0)
 print(f"""You are helping to evaluate a verification effort by playing the adversary. You get ONE semantic property of the Python package LLNL/Abmarl and your own scratch git worktree of its repository at {wt} (a detached checkout; work ONLY there; do NOT read or use anything under /verif or /repo — what you write must be independent of any existing checker).
 
 The property:
